@@ -3,10 +3,12 @@ package main
 import (
 	"reflect"
 	"fmt"
+	"go/token"
 	"go/types"
 	"strings"
 
 	"golang.org/x/tools/go/ssa"
+	"golang.org/x/tools/go/ssa/ssautil"
 )
 
 func (fg *FG) cellClosure(l *Loc, ci *closureInfo) {
@@ -120,6 +122,15 @@ func (fg *FG) call0(st *State, cc *ssa.CallCommon, in ssa.Instruction, resultOf 
 		if callee == nil && fv.Clo != nil {
 			callee = fv.Clo.fn
 		}
+		if callee == nil {
+			// a package-level function variable that is set once, by its declaration, to a named
+			// function and never assigned in the loaded program (var LatestKeyLen = V1Len)
+			if u, ok := cc.Value.(*ssa.UnOp); ok && u.Op == token.MUL {
+				if g, ok := u.X.(*ssa.Global); ok {
+					callee = fg.g.constFuncVar(g)
+				}
+			}
+		}
 		if callee != nil {
 			ckey = fg.g.keyOf(callee)
 			c = fg.g.contractFor(callee)
@@ -224,6 +235,14 @@ func (fg *FG) call0(st *State, cc *ssa.CallCommon, in ssa.Instruction, resultOf 
 	env := &Env{fg: fg, vars: map[string]Val{}, st: st, pkg: pkg}
 	if p := fg.g.pkgByName(c.Pkg); p != nil && pkg == nil {
 		env.pkg = p
+	}
+	if callee != nil {
+		if tps, tas := callee.TypeParams(), callee.TypeArgs(); tps != nil && len(tas) == tps.Len() {
+			env.tsubst = map[string]types.Type{}
+			for i := 0; i < tps.Len(); i++ {
+				env.tsubst[tps.At(i).Obj().Name()] = tas[i]
+			}
+		}
 	}
 	for i, n := range names {
 		env.vars[n] = args[i]
@@ -493,6 +512,15 @@ func (fg *FG) funcValueName(v ssa.Value) string {
 		return shortTypeBase(x.X.Type()) + "." + s.Field(x.Field).Name()
 	case *ssa.Phi:
 		return x.Comment
+	case *ssa.Extract:
+		// one of several results of a call: named as the callee's contract names that result
+		if call, ok := x.Tuple.(*ssa.Call); ok {
+			if callee := call.Call.StaticCallee(); callee != nil {
+				if c := fg.g.contractFor(callee); c != nil && x.Index < len(c.Results) {
+					return c.Results[x.Index]
+				}
+			}
+		}
 	}
 	return v.Name()
 }
@@ -544,6 +572,34 @@ func (fg *FG) typeFacts(c *Contract, env *Env, in ssa.Instruction, label string)
 				src += ": " + why
 			}
 			fg.oblig("pre", fmt.Sprintf("pre:%s#typefact.method.%s@%s", c.Key, sanitize(parts[0]), label), "", fg.guard(), goal, src, fg.posOf(instrPos(in)))
+			continue
+		}
+		if tf[0] == "implements" {
+			// "<type> <interface>": the type's method set satisfies the interface (what a run-time
+			// type assertion to that interface decides)
+			parts := strings.Fields(tf[1])
+			var t, it types.Type
+			if len(parts) == 2 {
+				t, _ = env.resolveType(parts[0])
+				it, _ = env.resolveType(parts[1])
+			}
+			if t == nil || it == nil {
+				why = "cannot resolve type"
+			} else if iface, ok := types.Unalias(it).Underlying().(*types.Interface); !ok {
+				why = parts[1] + " is not an interface"
+			} else if m, wrong := types.MissingMethod(t, iface, true); m != nil {
+				why = "missing method " + m.Name()
+				if wrong {
+					why = "method " + m.Name() + " has a different signature"
+				}
+			}
+			goal := "true"
+			src := "typefact implements " + tf[1]
+			if why != "" {
+				goal = "false"
+				src += ": " + why
+			}
+			fg.oblig("pre", fmt.Sprintf("pre:%s#typefact.implements.%s@%s", c.Key, sanitize(tf[1]), label), "", fg.guard(), goal, src, fg.posOf(instrPos(in)))
 			continue
 		}
 		t, _ := env.resolveType(tf[1])
@@ -1222,4 +1278,44 @@ func (fg *FG) goStmt(st *State, x *ssa.Go) {
 		nm := fmt.Sprintf("pre:%s#%s@%s", c.Key, clauseName(r, k), fg.instrLabel(x))
 		fg.oblig("pre", nm, r.Tag, fg.guard(), t.T, r.Src, fg.posOf(instrPos(x)))
 	}
+}
+
+// constFuncVar: the function a package-level variable of function type always holds - when its only
+// assignment in the loaded program is the one of its declaration (in the package initialiser) and
+// that assigns a named function. (An assignment from a package that is not loaded would be missed:
+// listed with the assumptions of the trusted base.)
+func (g *Gen) constFuncVar(gl *ssa.Global) *ssa.Function {
+	if g.funcVars == nil {
+		g.funcVars = map[*ssa.Global]*ssa.Function{}
+		bad := map[*ssa.Global]bool{}
+		for fn := range ssautil.AllFunctions(g.prog) {
+			for _, b := range fn.Blocks {
+				for _, in := range b.Instrs {
+					// any use of the variable's address other than loading from it or this one store disqualifies it
+					if st, ok := in.(*ssa.Store); ok {
+						if x, ok := st.Addr.(*ssa.Global); ok {
+							f, isFn := st.Val.(*ssa.Function)
+							if !isFn || fn.Name() != "init" || fn.Pkg == nil || fn.Pkg != x.Pkg || g.funcVars[x] != nil {
+								bad[x] = true
+							} else {
+								g.funcVars[x] = f
+							}
+							continue
+						}
+					}
+					for _, op := range in.Operands(nil) {
+						if x, ok := (*op).(*ssa.Global); ok {
+							if u, isLoad := in.(*ssa.UnOp); !(isLoad && u.Op == token.MUL) {
+								bad[x] = true
+							}
+						}
+					}
+				}
+			}
+		}
+		for x := range bad {
+			delete(g.funcVars, x)
+		}
+	}
+	return g.funcVars[gl]
 }
